@@ -162,6 +162,33 @@ def large_case(n_strings, edition=4, compressed=False):
     return gmsg.case_from_raws(meta, [101000, 31002, 205255], subsets=[[n_strings] + vals])
 
 
+def exact_length_case(total, edition=4):
+    """a message of exactly `total` octets (205YYY character fields make up the difference)"""
+    from refbufr import frame
+    meta = frame.default_meta(edition)
+    meta.update({'master_table_version': 33, 'n_subsets': 1, 'is_compressed': False})
+    base = len(gmsg.case_from_raws(meta, [205001], subsets=[[b'x']]).bytes) - 3      # without the one descriptor and its octet
+    for k in range(1, 70000):
+        rest = total - base - 2 * k
+        if k <= rest <= 255 * k:
+            ys = [255] * k
+            over = 255 * k - rest
+            i = 0
+            while over:
+                d = min(254, over)
+                ys[i] -= d
+                over -= d
+                i += 1
+            c = gmsg.case_from_raws(meta, [205000 + y for y in ys], subsets=[[(b'%03d-' % y * 64)[:y] for y in ys]])
+            assert len(c.bytes) == total, (len(c.bytes), total)
+            return c
+    raise ValueError(total)
+
+
+# total lengths whose three octets hold a line feed, a carriage return, a NUL, a quote or a backslash
+SPECIAL_LENGTHS = [0x010a, 0x0a0a, 0x0d0a, 0x0a00, 0x0100, 0x0122, 0x015c, 0x0a0d]
+
+
 def large_streams(tier, seed):
     sizes = [258, 2400] if tier == 'quick' else [257, 258, 1200, 1960, 1961, 2400, 4200, 33000]
     small = [gmsg.case_from_raws(dict(large_case(1).meta, edition=4), [1001, 1002], subsets=[[1, 2]]),
@@ -171,6 +198,11 @@ def large_streams(tier, seed):
         big = large_case(n, edition=[4, 3][(j + seed) % 2], compressed=(j + seed) % 3 == 0 and n <= 2400)
         cases = [small[0], big, small[1]] if (j + seed) % 2 else [big, small[1], small[0]]
         out.append(StreamCase(cases, [b'', b'\r\r\n', b'BUF', b'7777'][:len(cases) + 1]))
+    lens = SPECIAL_LENGTHS if tier != 'quick' else SPECIAL_LENGTHS[seed % 2::2] + SPECIAL_LENGTHS[:1]
+    cs = [exact_length_case(n) for n in lens]
+    for j in range(0, len(cs), 2):
+        grp = cs[j:j + 2] + [small[j % 2]]
+        out.append(StreamCase(grp, [b'\n', b'', b'\r\r\n', b''][:len(grp) + 1]))
     return out
 
 
@@ -207,8 +239,8 @@ def run(tier, seed):
     for sc in large_streams(tier, seed):
         o = check_case(sc)
         big = max(len(c.bytes) for c in sc.cases)
-        rep.add_case(sc.key(), True, ['message_longer_than_65535_octets'] + (['message_longer_than_500000_octets'] if big > 500000 else []),
-                     None)
+        rep.add_case(sc.key(), True, (['message_longer_than_65535_octets'] if big > 65535 else ['total_length_with_special_octets']) +
+                     (['message_longer_than_500000_octets'] if big > 500000 else []), None)
         for clause, detail in o.failures:
             rep.add_failure('large message: ' + clause, dict(detail, largest_message_octets=big), sc.to_json(),
                             stage='large messages')
